@@ -19,7 +19,35 @@ sys.path.insert(0, HERE)
 sys.dont_write_bytecode = True
 
 
+class _SafeOut:
+    """stdout wrapper: a closed pipe (e.g. `| head`) must not change the exit code."""
+
+    def __init__(self, f):
+        self.f = f
+        self.dead = False
+
+    def write(self, s):
+        if self.dead:
+            return len(s)
+        try:
+            return self.f.write(s)
+        except BrokenPipeError:
+            self.dead = True
+            return len(s)
+
+    def flush(self):
+        if not self.dead:
+            try:
+                self.f.flush()
+            except BrokenPipeError:
+                self.dead = True
+
+    def __getattr__(self, k):
+        return getattr(self.f, k)
+
+
 def main() -> int:
+    sys.stdout = _SafeOut(sys.stdout)
     ap = argparse.ArgumentParser()
     ap.add_argument("prop")
     ap.add_argument("--tier", default=os.environ.get("VERIF_TIER", "quick"),
@@ -86,4 +114,13 @@ def main() -> int:
 
 
 if __name__ == "__main__":
-    sys.exit(main())
+    code = main()
+    try:
+        sys.stdout.flush()
+    except Exception:  # noqa: BLE001
+        pass
+    try:
+        sys.stdout.f.close()
+    except Exception:  # noqa: BLE001
+        pass
+    os._exit(code)
